@@ -249,6 +249,168 @@ def hwb_end(S, F, adt, low, high, mode):
     return v
 
 
+# ------------------------------------------------------------------------------------------------ monotonicity
+def mono(v, u, ctx, nonneg):
+    """Direction of v as a function of the atom named u: +1 non-decreasing, -1 non-increasing, 0 constant, None unknown.
+    Structural: sums of constant multiples of u, of u^k (k odd, or any k when u is declared non-negative) and of sqrt/cbrt of monotone
+    arguments; case trees are handled by the caller (each piece + continuity)."""
+    if not isinstance(v, RatFunc):
+        return None
+    if u not in atoms_of(v):
+        return 0
+    if not poly.p_is_const(v.den):
+        return None
+    d = poly.p_const_value(v.den)
+    # alpha * (linear in u)^3 + const: monotone with the sign of alpha * slope (x -> x^3 is increasing)
+    c3 = [cn for m, cn in v.num.items() if len(m) == 1 and m[0][1] == 3 and poly.atom_by_id(m[0][0]).name == u]
+    if len(c3) == 1 and c3[0] != 0:
+        alpha = Fr(c3[0]) / d
+        cube = sym._cube_of_linear(v * ctx.num(1 / alpha), ctx)
+        if cube is not None:
+            lin, _r = cube
+            slope = [cn for m, cn in lin.num.items() if len(m) == 1 and m[0][1] == 1 and poly.atom_by_id(m[0][0]).name == u]
+            if len(slope) == 1 and len([m for m in lin.num if m]) == 1:
+                sl = Fr(slope[0]) / poly.p_const_value(lin.den)
+                return (1 if alpha > 0 else -1) * (1 if sl > 0 else -1)
+    total = 0
+    for m, c in v.num.items():
+        if not m:
+            continue
+        coef = Fr(c) / d
+        if len(m) != 1:
+            # a product of several atoms: only allowed when the other factors do not depend on u and are positive constants' atoms (not needed here)
+            dep = [k for k, _e in m if u in atoms_of(RatFunc.atom(poly.atom_by_id(k), ctx.tab)) or poly.atom_by_id(k).name == u]
+            if dep:
+                return None
+            continue
+        (k, e), = m
+        at = poly.atom_by_id(k)
+        if not at.args:
+            if at.name != u:
+                continue
+            if e % 2 == 1 or u in nonneg:
+                dirn = 1
+            else:
+                return None
+        else:
+            if at.name not in ("sqrt", "cbrt") or e != 1:
+                if u in atoms_of(RatFunc.atom(at, ctx.tab)):
+                    return None
+                continue
+            inner = mono(at.args[0], u, ctx, nonneg)
+            if inner is None:
+                return None
+            dirn = inner
+        if dirn == 0:
+            continue
+        sgn = dirn * (1 if coef > 0 else -1)
+        if total == 0:
+            total = sgn
+        elif total != sgn:
+            return None
+    return total
+
+
+def mono_tree(v, u, S, nonneg):
+    """Monotone direction of a case tree in u: every piece has the same direction and neighbouring pieces agree at their knee."""
+    if not isinstance(v, Ite):
+        return mono(v, u, S.ctx, nonneg), "closed form"
+    rf = sym.Ctx._cond_rf.get(v.c)
+    lf = alg.linear_form(rf) if isinstance(rf, RatFunc) else None
+    if lf is None:
+        return None, "condition is not a threshold on the variate"
+    pkey, alpha, t0 = lf
+    if not (len(pkey) == 1 and len(pkey[0][0]) == 1 and poly.atom_by_id(pkey[0][0][0][0]).name == u):
+        return None, "condition does not compare the variate with a constant"
+    dt, wt = mono_tree(v.t, u, S, nonneg)
+    df, wf = mono_tree(v.f, u, S, nonneg)
+    if dt is None or df is None or (dt != 0 and df != 0 and dt != df):
+        return None, "pieces have different directions"
+    # continuity at the knee u = t0
+    aid = pkey[0][0][0][0]
+    try:
+        a = v.t
+        b = v.f
+        while isinstance(a, Ite):
+            a = a.f
+        while isinstance(b, Ite):
+            b = b.t
+        va = alg.deep_subst(a, {aid: t0}, S.ctx)
+        vb = alg.deep_subst(b, {aid: t0}, S.ctx)
+        if not va.equals(vb):
+            return None, "pieces do not meet at the knee %s" % t0
+    except Exception as ex:
+        return None, "knee not evaluable: %s" % ex
+    return (dt or df), "pieces agree in direction and meet at %s" % t0
+
+
+def check_monotone(F, rep):
+    """Between the end points: each sampled component is a non-decreasing function of its inner variate and each inner range end is a
+    non-decreasing function of the corresponding end component — together with END this gives low.f <= sample.f <= high.f."""
+    n = 0
+    for im, xt in sorted(sampler_impls(F), key=lambda t: t[0]["self_s"]):
+        key = im["self_s"].split("<")[0].split("::")[-1]
+        adt = sym._adt_of_type(xt)
+        if adt.startswith("hues::") or adt.endswith("::Alpha") or key in ("UniformHwb", "UniformOkhwb"):
+            continue  # hue arcs: END + unwrapping rule; Alpha: two independent rand Uniforms; HWB: defined through the HSV sampler
+        b_new, b_smp = F.impl_method(im, "new"), F.impl_method(im, "sample")
+        try:
+            S = Session(F)
+            S.ctx.expand_minmax = False
+            st = {"mode": "build", "kinds": set(), "gens": [], "F": F}
+            S.ctx.call_hook = make_hook(st)
+            low = alg.symbolic_arg(S.ctx, xt, "low")
+            high = alg.symbolic_arg(S.ctx, xt, "high")
+            pos = _positive_names(("low.", "high."), low) | _positive_names(("low.", "high."), high)
+            S.ctx.positive = pos
+            U, _ = S.ev.eval_body(b_new, [low, high])
+            # replace every inner Uniform by a variate atom named after its field path
+            names = {}
+
+            def variates(v, pre=""):
+                if isinstance(v, Struct) and v.path == "rand::Uniform":
+                    nm = "u:" + pre
+                    names[nm] = v
+                    return Struct("rand::Uniform", {"low": S.ctx.sym(nm), "high": S.ctx.sym(nm)})
+                if isinstance(v, Struct):
+                    return Struct(v.path, {k: variates(x, (pre + "." + k) if pre else k) for k, x in v.fields.items()})
+                return v
+            Uv = variates(U)
+            st["mode"] = "low"
+            smp, _ = S.ev.eval_body(b_smp, [Uv, S.ctx.sym("rng")])
+            st["mode"] = "build"
+            bad = []
+            info = []
+            for comp, val in smp.fields.items():
+                if isinstance(val, Struct):
+                    continue  # hue / phantom
+                us = sorted(a for a in atoms_of(val) if a.startswith("u:"))
+                if len(us) != 1:
+                    bad.append("%s depends on %s variates" % (comp, len(us)))
+                    continue
+                d, why = mono_tree(val, us[0], S, set(us))
+                if d != 1:
+                    bad.append("%s is not shown non-decreasing in its variate (%s): %s" % (comp, why, alg._short(val, 60)))
+                    continue
+                # the range ends as functions of the end components
+                ends = names[us[0]]
+                for side, endv, src in (("low", ends.fields["low"], "low."), ("high", ends.fields["high"], "high.")):
+                    srcs = sorted(a for a in atoms_of(endv) if a.startswith(src))
+                    if len(srcs) != 1:
+                        bad.append("%s range end of %s depends on %s" % (side, comp, srcs))
+                        continue
+                    d2, why2 = mono_tree(endv, srcs[0], S, set(srcs))
+                    if d2 != 1:
+                        bad.append("%s range end of %s is not non-decreasing in %s (%s)" % (side, comp, srcs[0], why2))
+                info.append("%s(%s)" % (comp, us[0][2:]))
+            rep.ob("MONO", "uniform:" + key, not bad, "; ".join(bad[:3]) if bad else
+                   "each of %s is non-decreasing in its variate and each range end in the end component: with END, low <= sample <= high component-wise" % ", ".join(info), F.loc(b_smp))
+            n += 1
+        except (Opaque, poly.TooBig, KeyError) as ex:
+            rep.fail("MONO", "uniform:" + key, "uninterpretable: %s" % ex, F.loc(b_smp))
+    rep.floor("uniform samplers with a monotonicity argument", n, 18)
+
+
 # ------------------------------------------------------------------------------------------------ Standard
 def _root_bounds(name, lo, hi):
     """rational enclosure of sqrt/cbrt over [lo, hi] (lo >= 0)"""
@@ -519,6 +681,7 @@ def run(F, rep, tier="quick", extra=None, only=None):
                     "rand 0.8 API meaning: Uniform::new(a, b).sample ∈ [a, b) (new_inclusive: [a, b]), Standard f32/f64 ∈ [0, 1), SampleBorrow::borrow is the identity",
                     "axioms sqrt(x)^2 = x, cbrt(x)^3 = x, sqrt(x^2) = x and cbrt(x^3) = x for the non-negative documented ranges"]
     check_uniform(F, rep)
+    check_monotone(F, rep)
     check_standard(F, rep)
     check_volume(F, rep)
     return {"level": "other", "explanation": EXPLANATION}
